@@ -11,7 +11,7 @@ from ..terms import Aff, K, ONE, S, ZERO, atoms_in, cmp_cond, show_cond, show_va
 from .engine import calls_named, loops_of, init, role_param
 
 BT_MOD = "solvers.backtrack_solver"
-BITS = {"numpy.uint8": 8, "numpy.uint16": 16, "numpy.int16": 15, "numpy.int32": 31, "numpy.int64": 63, "numpy.uint32": 32, "numpy.bool": 1, "numpy.bool_": 1}
+BITS = {"numpy.int8": 7, "numpy.uint8": 8, "numpy.uint16": 16, "numpy.int16": 15, "numpy.int32": 31, "numpy.int64": 63, "numpy.uint32": 32, "numpy.bool": 1, "numpy.bool_": 1}
 
 
 def _alloc_of(it: Interp, path: PathResult, attr: str) -> Optional[Tuple[Event, Tuple]]:
